@@ -7,6 +7,7 @@ Oracle: the generator's cell map normalised by the xlsx storage rules and cross-
 """
 import datetime
 import os
+import re
 
 import openpyxl
 
@@ -56,6 +57,10 @@ def same_typed(exp, got):
 def formula_value(text):
     """Reference value of the tiny formulas planted by the generator."""
     toks_ast = text[1:]
+    m = re.fullmatch(r'COLUMN\(([A-Z]+)[0-9]+:([A-Z]+)[0-9]+\)', toks_ast)
+    if m:
+        # the number of the first column of the area (the library lets the other numbers spill over the blank cells to the right)
+        return wbk.column_index_from_string(m.group(1))
     a, op, b = toks_ast.partition('+') if '+' in toks_ast else toks_ast.partition('*')
     return int(a) + int(b) if op == '+' else int(a) * int(b)
 
@@ -63,6 +68,7 @@ def formula_value(text):
 def run_spec(spec, rec=None):
     model = {'sheets': []}
     expect = []   # per sheet: dict (c,r) -> expected python value
+    spills = []   # per sheet: coordinates a COLUMN(area) formula may fill with numbers when they are blank
     for sh in spec['sheets']:
         cells = {}
         exp = {}
@@ -77,6 +83,14 @@ def run_spec(spec, rec=None):
                 exp[(c, r)] = normalise(v)
         model['sheets'].append({'title': sh['title'], 'cells': cells, **({'dimension': sh['dimension']} if sh.get('dimension') else {})})
         expect.append(exp)
+        spill_of = set()
+        for (c, r, v) in sh['cells']:
+            text_ = v['$arr'][1] if isinstance(v, dict) and '$arr' in v else v
+            m = re.fullmatch(r'=COLUMN\(([A-Z]+)[0-9]+:([A-Z]+)[0-9]+\)', text_) if isinstance(text_, str) else None
+            if m:
+                width = wbk.column_index_from_string(m.group(2)) - wbk.column_index_from_string(m.group(1)) + 1
+                spill_of |= {(c + k, r) for k in range(1, width)}
+        spills.append(spill_of)
     path = wbk.write_xlsx(model)
     fails = []
 
@@ -148,6 +162,8 @@ def run_spec(spec, rec=None):
                 coords.add((1 + (k * 7919 + si) % maxc, 1 + (k * 104729 + 3 * si) % maxr))
             for (c, r) in sorted(coords):
                 e = exp.get((c, r))
+                if e is None and (c, r) in spills[si]:
+                    continue
                 addressing = (c * 31 + r) % 3
                 if addressing == 0:
                     cell_a, cell_b = wbk.Cell(sh['title'], wbk.get_column_letter(c), str(r)), wbk.Cell(sh['title'], wbk.get_column_letter(c), str(r))
@@ -235,7 +251,10 @@ def strategy():
     d = st.dates(min_value=datetime.date(1900, 3, 1), max_value=datetime.date(9999, 12, 31)).map(lambda x: {'$d': x.isoformat()})
     value = st.one_of(st.integers(-2 ** 53 + 1, 2 ** 53 - 1), st.integers(-100, 100), st.floats(allow_nan=False, allow_infinity=False, width=64).map(lambda x: float('%.16g' % x)).filter(lambda x: abs(x) < 1e308),
                       st.sampled_from([0.5, -0.0, 2.0, 1e300, 1e-300, 0.1, 123456789.125, 0.3333333333333333, 3.141592653589793, 434.9999999999999, 0.5208333333333334]), st.booleans(), text, text, dt, d,
-                      st.tuples(st.integers(0, 99), st.sampled_from(['+', '*']), st.integers(0, 99)).map(lambda t: f'={t[0]}{t[1]}{t[2]}'))
+                      st.tuples(st.integers(0, 99), st.sampled_from(['+', '*']), st.integers(0, 99)).map(lambda t: f'={t[0]}{t[1]}{t[2]}'),
+                      # the area lies below every generated cell (rows <= 3000), so the formula is never part of its own argument
+                      st.tuples(st.integers(1, 30), st.integers(1, 4), st.integers(1, 9)).map(
+                          lambda t: f'=COLUMN({wbk.get_column_letter(t[0])}{9000 + t[2]}:{wbk.get_column_letter(t[0] + t[1])}{9001 + t[2]})'))
 
     @st.composite
     def spec(draw):
